@@ -187,5 +187,156 @@ theorem handleRecord_frag13 (H : Crypto.Prims) (P : Prims) (L : SealLaws P) (kl 
   rw [heq]
   exact ⟨hcan, ⟨v, hver, hv13⟩, _, rfl, e2⟩
 
-end TLX.Lemmas.Capstone2
+-- ------------------------------------------------------------------ the session over fragmenting scripts
+def evRawF (P : Prims) (L : SealLaws P) (cls : CipherClass) (ver : Bytes) (sd : SDir) : FEv → Bytes
+  | .ccs => record 20 ver [1]
+  | .frag b _ f => (protect P L cls ver sd 22 b f).2
+  | .app pt f => (protect P L cls ver sd 23 pt f).2
 
+def evNextF (P : Prims) (L : SealLaws P) (cls : CipherClass) (ver : Bytes) (sd : SDir) : FEv → SDir
+  | .ccs => sd
+  | .frag b n f => switchN n (protect P L cls ver sd 22 b f).1
+  | .app pt f => (protect P L cls ver sd 23 pt f).1
+
+theorem sendDirF_cons (P : Prims) (L : SealLaws P) (cls : CipherClass) (ver : Bytes) (sd : SDir) (e : FEv)
+    (r : List FEv) :
+    sendDirF P L cls ver sd (e :: r) = evRawF P L cls ver sd e :: sendDirF P L cls ver (evNextF P L cls ver sd e) r := by
+  cases e <;> rfl
+
+theorem sendDirF_eq_nil (P : Prims) (L : SealLaws P) (cls : CipherClass) (ver : Bytes) (sd : SDir) (l : List FEv)
+    (h : sendDirF P L cls ver sd l = []) : l = [] := by
+  cases l with
+  | nil => rfl
+  | cons e r => rw [sendDirF_cons] at h; cases h
+
+/-- LOCKSTEP: the tool's walk over the record's plaintext sees as many type-20 bytes as Finished messages end in the
+    record (the sender's switches). The hypothesis of the partial result. -/
+def Lock : FEv → Prop
+  | .frag b n _ => seenFins b = n
+  | _ => True
+
+instance (e : FEv) : Decidable (Lock e) := by cases e <;> unfold Lock <;> infer_instance
+
+def costF : List FEv → Nat
+  | [] => 0
+  | .frag _ n _ :: r => 1 + n + costF r
+  | _ :: r => 1 + costF r
+
+theorem costF_cons (e : FEv) (r : List FEv) : costF (e :: r) = costF [e] + costF r := by
+  cases e <;> simp [costF] <;> omega
+
+theorem plainOfF_cons (e : FEv) (r : List FEv) : plainOfF (e :: r) = plainOfF [e] ++ plainOfF r := by
+  cases e <;> simp [plainOfF]
+
+def updF (rem : Bool → List FEv) (d : Bool) (l : List FEv) : Bool → List FEv := fun d' => if d' = d then l else rem d'
+
+theorem stepF (H : Crypto.Prims) (P : Prims) (L : SealLaws P) (kl : List Keylog.Key) (cls : CipherClass)
+    (h13 : cls.is13 = true) (macLen : Nat) (ver : Bytes) (hv : ver.length = 2) (x : Snd) (s : Session.St Dec)
+    (hs : Ready cls macLen x s) (d : Bool) (e : FEv) (car : List Nat) (hlock : Lock e)
+    (hq : max x.c.seq x.s.seq + costF [e] ≤ seqLimit) :
+    let s' := Session.handleRecord (Pipeline.ops H P kl) false s ⟨evRawF P L cls ver (x.get d) e, car⟩ d
+    let x' := x.set d (evNextF P L cls ver (x.get d) e)
+    Ready cls macLen x' s' ∧
+    (∀ d', dirPlain d' s'.traffic = dirPlain d' s.traffic ++ (if d' = d then plainOfF [e] else [])) ∧
+    max x'.c.seq x'.s.seq ≤ max x.c.seq x.s.seq + costF [e] := by
+  intro s' x'
+  cases e with
+  | ccs =>
+    obtain ⟨a1, a2, a3, _, _, _, a7⟩ := handleRecord_ccs (Pipeline.ops H P kl) false s
+      ⟨record 20 ver [1], car⟩ d (record_typ 20 ver [1] car)
+    have hx : x' = x := set_get x d
+    rw [hx]
+    refine ⟨hs.of_eq a1 a2 a3, ?_, by omega⟩
+    intro d'
+    show dirPlain d' (Session.handleRecord _ false s ⟨record 20 ver [1], car⟩ d).traffic = _
+    rw [a7 rfl]; simp [plainOfF]
+  | frag b n f =>
+    simp only [costF] at hq
+    obtain ⟨b1, b2, b3⟩ := handleRecord_frag13 H P L kl cls h13 macLen ver hv x s hs d b n f hlock (by omega) false car
+    change max x'.c.seq x'.s.seq ≤ _ at b3
+    refine ⟨b2, ?_, by simp only [costF]; omega⟩
+    intro d'
+    show dirPlain d' (Session.handleRecord _ false s ⟨(protect P L cls ver (x.get d) 22 b f).2, car⟩ d).traffic = _
+    rw [b1]; simp [plainOfF]
+  | app pt f =>
+    simp only [costF] at hq
+    obtain ⟨c1, c2, c3, c4⟩ := handleRecord_app H P L kl cls macLen ver hv x s hs d pt f
+      (sendOk_13 cls h13 macLen pt f) (by omega) false car
+    change x'.c.seq ≤ _ at c3
+    change x'.s.seq ≤ _ at c4
+    refine ⟨c2, ?_, by simp only [costF]; exact Nat.max_le.mpr ⟨by omega, by omega⟩⟩
+    intro d'
+    show dirPlain d' (Session.handleRecord _ false s ⟨(protect P L cls ver (x.get d) 23 pt f).2, car⟩ d).traffic = _
+    rw [c1, dirPlain_push]
+    simp [plainOfF]
+
+/-- TLS 1.3 after the ServerHello with FRAGMENTED handshake records: `Session` over any interleaving of the two sides'
+    records exports each side's application plaintexts exactly — provided every handshake record is in LOCKSTEP -/
+theorem run_mergeF (H : Crypto.Prims) (P : Prims) (L : SealLaws P) (kl : List Keylog.Key) (cls : CipherClass)
+    (h13 : cls.is13 = true) (macLen : Nat) (ver : Bytes) (hv : ver.length = 2) (M : List (Session.Rec × Bool)) :
+    ∀ (x : Snd) (s : Session.St Dec) (rem : Bool → List FEv), Ready cls macLen x s →
+      (∀ d, ∀ e ∈ rem d, Lock e) →
+      (∀ d, (M.filter fun q => q.2 == d).map (·.1.raw) = sendDirF P L cls ver (x.get d) (rem d)) →
+      max x.c.seq x.s.seq + (costF (rem false) + costF (rem true)) ≤ seqLimit →
+      ∀ d, dirPlain d (Session.run (Pipeline.ops H P kl) false s M).traffic
+        = dirPlain d s.traffic ++ plainOfF (rem d) := by
+  induction M with
+  | nil =>
+    intro x s rem _ _ hfil _ d
+    have := sendDirF_eq_nil P L cls ver _ _ (hfil d).symm
+    simp [Session.run, this, plainOfF]
+  | cons q M' ih =>
+    intro x s rem hs hlock hfil hq d
+    obtain ⟨r, d0⟩ := q
+    have h0 := hfil d0
+    rw [filter_dir_cons_same, List.map_cons] at h0
+    cases hrem : rem d0 with
+    | nil => rw [hrem] at h0; cases h0
+    | cons e rest =>
+      rw [hrem, sendDirF_cons] at h0
+      simp only [List.cons.injEq] at h0
+      obtain ⟨hraw, htail⟩ := h0
+      have hr : r = ⟨evRawF P L cls ver (x.get d0) e, r.carriers⟩ := by
+        have hraw' : r.raw = evRawF P L cls ver (x.get d0) e := hraw
+        rw [← hraw']
+      have hcost : costF [e] + costF rest + costF (rem (!d0)) ≤ costF (rem false) + costF (rem true) := by
+        have := costF_cons e rest
+        cases d0
+        · simp only [Bool.not_false, hrem] at *; omega
+        · simp only [Bool.not_true, hrem] at *; omega
+      obtain ⟨g1, g4, g5⟩ := stepF H P L kl cls h13 macLen ver hv x s hs d0 e r.carriers
+        (hlock d0 e (by rw [hrem]; simp)) (by omega)
+      rw [← hr] at g1 g4
+      have hlock' : ∀ d', ∀ e' ∈ updF rem d0 rest d', Lock e' := by
+        intro d' e' he'
+        by_cases hd : d' = d0
+        · subst hd
+          simp only [updF, if_true] at he'
+          exact hlock d' e' (by rw [hrem]; simp [he'])
+        · simp only [updF, hd, if_false] at he'
+          exact hlock d' e' he'
+      have hfil' : ∀ d', (M'.filter fun q => q.2 == d').map (·.1.raw)
+          = sendDirF P L cls ver ((x.set d0 (evNextF P L cls ver (x.get d0) e)).get d') (updF rem d0 rest d') := by
+        intro d'
+        by_cases hd : d' = d0
+        · subst hd
+          rw [Lemmas.RecLayer.sget_set]
+          simpa [updF] using htail
+        · rw [sget_set_ne _ _ _ _ hd]
+          simp only [updF, hd, if_false]
+          rw [← hfil d', filter_dir_cons_other _ _ _ _ hd]
+      have hq' : max (x.set d0 (evNextF P L cls ver (x.get d0) e)).c.seq (x.set d0 (evNextF P L cls ver (x.get d0) e)).s.seq
+          + (costF (updF rem d0 rest false) + costF (updF rem d0 rest true)) ≤ seqLimit := by
+        have : costF (updF rem d0 rest false) + costF (updF rem d0 rest true) = costF rest + costF (rem (!d0)) := by
+          cases d0 <;> simp [updF] <;> omega
+        rw [this]; omega
+      have := ih _ _ (updF rem d0 rest) g1 hlock' hfil' hq' d
+      simp only [Session.run, List.foldl_cons] at this ⊢
+      rw [this, g4 d]
+      by_cases hd : d = d0
+      · subst hd
+        simp only [updF, if_true, hrem]
+        rw [plainOfF_cons e rest, List.append_assoc]
+      · simp [updF, hd]
+
+end TLX.Lemmas.Capstone2
